@@ -26,6 +26,11 @@ def check(repo: Repo, R) -> None:
     naming(repo, R)
     c01.bundle_conn_path(repo, R, "C10.5-both-sides-agree-on-members")
     c01.copy_aliasing(repo, R, "C10.5-both-sides-agree-on-members")
+    from . import c02
+    from .shared import Retag
+    from .common import noreturn_set as _nrs
+    c02.guard_inventory(repo, Retag(R, lambda r, k: "C10.5-both-sides-agree-on-members" if "replace_bundle_conn" in k and "member" in k else None,
+                                    "a connected bundle with a surplus (or a missing) member is flattened onto the instance: the extra signal dangles, or a flattened port is left open"), _nrs(repo))
     R.floor("C10.1-portdir-flipped", 1)
     R.floor("C10.2-direction-visibility-table", 1)
     R.floor("C10.3-flip-parity", 4)
